@@ -153,6 +153,49 @@ func c20Abandoned(run *ev.Run) {
 	}
 }
 
+// c20FailedNested: a nested evaluation that never ran (compile error, failing include, parse error) or that
+// failed at run time, with the error caught by the enclosing evaluation, must leave nothing behind on the
+// interrupt stack: ONE interrupt still ends the enclosing, still running evaluation (seed C20-C: a context pushed
+// before compiling and not popped on the error path swallows every later interrupt).
+func c20FailedNested(run *ev.Run) {
+	cases := []struct{ name, prefix string }{
+		{"undefined-function", `(try eval("nosuchfunction_c20") catch "caught"), `},
+		{"undefined-variable", `(try eval("$nosuchvar_c20") catch "caught"), `},
+		{"failing-include", `(try eval("include \"nosuchmodule_c20\"; 1") catch "caught"), `},
+		{"parse-error", `(try eval("1 +") catch "caught"), `},
+		{"runtime-error", `(try eval("error(\"x\")") catch "caught"), `},
+		{"runtime-error-after-output", `[try eval("1, error(\"x\")") catch "caught"], `},
+		{"two-failed-compiles", `(try eval("nosuchfunction_c20") catch "c1"), (try eval("nosuchfunction_c20b") catch "c2"), `},
+	}
+	saved := c20SessionTimeout
+	c20SessionTimeout = 20 * time.Second
+	defer func() { c20SessionTimeout = saved }()
+	for _, c := range cases {
+		lines := []c20Line{
+			{Text: "1+1"},
+			{Spin: true, Prefix: c.prefix, Marker: "spin_failed_nested", Interrupt: 1},
+			{Text: `"after"`},
+			{Text: "^D"},
+		}
+		ref := c20RunSession(lines, false, false)
+		got := c20RunSession(lines, true, false)
+		run.Eval(1)
+		run.Count("interp:failed-nested-eval-scenarios", 1)
+		switch {
+		case got.Panic != "":
+			run.Violation("interp:panic", "failed-nested-eval session ("+c.name+") panicked\n"+trunc(got.Panic, 1500), nil)
+		case got.Timeout:
+			run.Violation("interp:failed-nested-eval-swallows-interrupt:"+c.name, "`"+c.prefix+"\"spin\", (range(1e12)|select(false))`: one interrupt delivered after the marker did not end the evaluation within 20 s", nil)
+		case ref.Timeout:
+			run.Inconclusive("failed-nested-reference-timeout")
+		case got.Stdout != ref.Stdout || got.Exit != ref.Exit:
+			run.Violation("interp:failed-nested:output:"+c.name, "failed-nested-eval session: transcript differs from the uninterrupted reference:\n"+firstDiff(ref.Stdout, got.Stdout), nil)
+		default:
+			run.Distinct("interp:failed-nested:" + c.name)
+		}
+	}
+}
+
 // c20OutputSuppressed: output written after cancellation is suppressed, also for a nested evaluation (depth >= 2)
 // whose single native call performs very many writes (hexdump of a 4 MiB binary, ~18 MB of text). The
 // interrupt is sent when the marker line has been written; afterwards at most a small fraction of the dump may
@@ -233,6 +276,7 @@ func c20OutputSuppressed(run *ev.Run) {
 
 func c20Interp(run *ev.Run) {
 	c20Abandoned(run)
+	c20FailedNested(run)
 	c20OutputSuppressed(run)
 	n := run.Pick(24, 400)
 	for id := 0; id < n; id++ {
